@@ -681,7 +681,26 @@ func runC05(r *Report, tier string) {
 		} else {
 			sg := projectField(V, "Signature")
 			fs := P.factsBefore(st.at)
-			r.ob("R05.4", name+":nonempty-signature", st.fn, st.at, "stored Signature is non-empty").check(fs.holdsNonEmpty(sg), "fact len("+sg.String()+") != 0", "the decoder can store an empty signature: no fact len("+sg.String()+") != 0 before the store")
+			okNE := fs.holdsNonEmpty(sg)
+			if call := helperResult(P, sg); !okNE && call != nil && sg.Op == "field" {
+				// the value comes from a helper: non-empty on each of its delivering exits
+				h := P.calleeOfTerm(call)
+				if ei := errIndex(h); ei >= 0 && fs.has(okFact(&Term{Op: "res", S: itoa(int64(ei)), Args: []*Term{call}})) {
+					okNE = true
+					n := 0
+					for _, hx := range P.factsOf(h).exits {
+						if hx.kind == exitFailure {
+							continue
+						}
+						n++
+						if !exitFacts(P, hx).holdsNonEmpty(projectField(hx.results[0], "Signature")) {
+							okNE = false
+						}
+					}
+					okNE = okNE && n > 0
+				}
+			}
+			r.ob("R05.4", name+":nonempty-signature", st.fn, st.at, "stored Signature is non-empty").check(okNE, "fact len("+sg.String()+") != 0", "the decoder can store an empty signature: no fact len("+sg.String()+") != 0 before the store")
 		}
 		checkDecoderLayer(r, "R05.5", name, st, W, ivFn)
 	}
@@ -818,11 +837,12 @@ func checkDecoderLayer(r *Report, rule, name string, st *recvWrite, W *types.Nam
 		H := &Term{Op: "field", S: "Headers", Args: []*Term{P.terms.of(st.root)}}
 		miss := layerFacts(fs, H)
 		ol.check(miss == "", "three facts on "+H.String(), "missing before the store: "+miss)
-	case HV.Op == "res" && HV.S == "0" && HV.Args[0].Op == "call" && P.calleeOfTerm(HV.Args[0]) != nil:
-		// the Headers are produced by a helper whose success is required here:
-		// every delivering exit of the helper returns a local built in place
-		// that carries the three facts
-		call := HV.Args[0]
+	case helperResult(P, HV) != nil:
+		// the Headers (or the whole value they are a field of) are produced by
+		// a helper whose success is required here: every delivering exit of
+		// the helper returns a local built in place that carries the three facts
+		call := helperResult(P, HV)
+		whole := HV.Op == "field"
 		h := P.calleeOfTerm(call)
 		ei := errIndex(h)
 		why := ""
@@ -847,10 +867,17 @@ func checkDecoderLayer(r *Report, rule, name string, st *recvWrite, W *types.Nam
 				why = "helper " + shortFn(h) + " returns " + truncate(hx.results[0].String(), 100) + ", not a local built in place"
 				continue
 			}
-			if miss := layerFacts(exitFacts(P, hx), P.terms.of(a)); miss != "" {
+			hl := P.terms.of(a)
+			if whole {
+				hl = &Term{Op: "field", S: "Headers", Args: []*Term{hl}}
+			}
+			if miss := layerFacts(exitFacts(P, hx), hl); miss != "" {
 				why = "in helper " + shortFn(h) + ": missing on a delivering exit: " + miss
 			}
 			rv := hx.results[0].subst(m)
+			if whole {
+				rv = projectField(rv, "Headers")
+			}
 			if hv != nil && !hv.eq(rv) {
 				why = "helper " + shortFn(h) + " delivers different values on different exits"
 			}
@@ -1428,4 +1455,16 @@ func checkStructurePrefixes(r *Report, rule string) {
 		r.ob(rule, name+":prefix", D, nil, fmt.Sprintf("success implies the input starts with % x", exp)).check(ok, why, why)
 	}
 	r.floor(rule, n, 5, "structure decoders")
+}
+
+// helperResult: t is result 0 of an in-package helper call, or a field of it
+// (the helper returns the whole value): the call term.
+func helperResult(P *Prog, t *Term) *Term {
+	if t.Op == "field" && len(t.Args) == 1 {
+		t = t.Args[0]
+	}
+	if t.Op == "res" && t.S == "0" && len(t.Args) == 1 && t.Args[0].Op == "call" && P.calleeOfTerm(t.Args[0]) != nil {
+		return t.Args[0]
+	}
+	return nil
 }
